@@ -63,7 +63,7 @@ def real_replay(job, sim_result):
 
     try:
         for op in job["ops"]:
-            time.sleep(0.012)
+            time.sleep(0.02)  # real timestamps must be strictly ordered between operations (tmpfs stamps come from the coarse clock)
             kind = op["op"]
             if kind == "write":
                 p = absp(op["path"])
